@@ -408,11 +408,11 @@ def do_pdf_sym(pg):
     # (weight conservation is only claimed without symmetry: sectors that reach below the
     #  equator lose the part folded onto the lower hemisphere, by construction of the code)
     if float(d1.min()) < -1e-12:
-        fail(f"pdf:symmetry:non-negative:{pg.name}", f"negative folded bin {float(d1.min())}", rep)
+        fail("pdf:symmetry:non-negative", f"negative folded bin {float(d1.min())}", rep)
     hm, _ = pole_density_function(Vector3d(V.data.copy()), resolution=res, sigma=sigma, weights=ws, symmetry=pg,
                                   mrd=True)
     if np.ma.count(hm) and abs(float(hm.mean()) - 1) > 1e-9:
-        fail(f"pdf:symmetry:mrd-mean:{pg.name}", f"MRD folded histogram averages to {float(hm.mean())}", rep)
+        fail("pdf:symmetry:mrd-mean", f"MRD folded histogram averages to {float(hm.mean())}", rep)
     if not np.allclose(d1, d2, rtol=1e-7, atol=1e-9 * tot):
         f1 = Vector3d(V.data.copy()).in_fundamental_sector(pg).data
         f2 = Vector3d(W.data.copy()).in_fundamental_sector(pg).data
